@@ -454,3 +454,56 @@ func c18GateOracles(c *ctx, s *c18Scn) {
 		c.violate("gate-hang:"+s.family, "checkStopAndPause did not return although the transfer was not paused", desc)
 	}
 }
+
+// group "pausecomp": differential execution of the two extracted composition machines (cstep, which
+// runs the reader machine itself on both sides, and astep, the abstraction the composition theorem is
+// proved for) on random schedules.  No implementation code is involved: this backs the simulation
+// lemma that is not proved (C18_short_pause_completes_full).
+func init() { groups["pausecomp"] = genPauseComp }
+
+func genPauseComp(c *ctx) {
+	letters := []byte("CWUra")
+	for i := 0; i < c.pick(1500, 20000); i++ {
+		T := 3 + c.rng.Intn(12)
+		sl, gl := 1+c.rng.Intn(3), 1+c.rng.Intn(3)
+		n := c.rng.Intn(14)
+		W := []int{1, 2, 5}[c.rng.Intn(3)]
+		short := c.rng.Intn(3) != 0
+		P := c.rng.Intn(T + 6)
+		slack := sl
+		if gl > slack {
+			slack = gl
+		}
+		if short {
+			P = c.rng.Intn(maxInt(1, T-slack))
+		}
+		ln := 100 + c.rng.Intn(500)
+		ev := make([]byte, ln)
+		pausy := c.rng.Intn(3)
+		for j := range ev {
+			r := c.rng.Intn(100)
+			switch {
+			case r < 14:
+				ev[j] = 'T'
+			case r < 14+3*pausy:
+				ev[j] = 'P'
+			case r < 14+6*pausy:
+				ev[j] = 'R'
+			default:
+				ev[j] = letters[c.rng.Intn(len(letters))]
+			}
+		}
+		want := "agree:0"
+		if !(P+slack < T) {
+			want = "" // an error may or may not be reached
+		}
+		args := []string{fmt.Sprint(T), fmt.Sprint(sl), fmt.Sprint(gl), fmt.Sprint(n), fmt.Sprint(W), fmt.Sprint(P), string(ev)}
+		if want == "" {
+			c.count("long-pause-schedule")
+			c.emit(pausy > 0, "pc_sim_any", "agree", args...)
+		} else {
+			c.count("short-pause-schedule")
+			c.emit(pausy > 0, "pc_sim", want, args...)
+		}
+	}
+}
